@@ -629,18 +629,22 @@ def _leaf_spans(src):
 
 def gen_templates():
     """every node type x every child position: as written, with a raising operand at each position,
-    and with each kind of value at each position."""
+    with each kind of value at each position (wrapped in a recorder object), and - templates with at least two
+    leaves - with each kind of value at each position as the PLAIN object (the other leaves keep recording)."""
     out = []
     kl = kind_lits(False)
     for ti, line in enumerate(TEMPLATES):
         src = line.replace("|", "\n")
         out.append(("tpl/%d" % ti, src))
-        for (n, a, b) in _leaf_spans(src):
+        spans = _leaf_spans(src)
+        for (n, a, b) in spans:
             out.append(("tpl/%d/raise@%d" % (ti, n), src[:a] + "(" + RAISER % n + ")" + src[b:]))
             for kname, lit in kl:
                 v = src[:a] + "t(%d, %s)" % (n, lit) + src[b:]
                 if v != src:
                     out.append(("tpl/%d/%s@%d" % (ti, kname, n), v))
+                if len(spans) >= 2:
+                    out.append(("tpl/%d/plain-%s@%d" % (ti, kname, n), src[:a] + "(" + lit + ")" + src[b:]))
     return out
 
 
